@@ -18,9 +18,10 @@ Restriction of the domain (stated, not hidden): instructions are the set below (
 carries the label `k`, the last label is `n = instructions.len()`; any other label number is an unknown label.
 `ldc` is given the pool index `PoolWrite::put_loadable` returns (the put is idempotent, see `Thm.C02.pool_put_idem`).
 
-Unchecked `u16`/`i32` arithmetic of the Rust (overflow checks on) is an explicit `Fail.panic`:
-`opcode_pos + 1 + 2` in `if_helper` (lines 470/482), `high - low + 1` in the `tableswitch` arm (line 928),
-`end - start` in `Labels::try_get_range` (labels.rs:43).
+Unchecked `u16`/`i32` arithmetic of the Rust (overflow checks on) would be an explicit `Fail.panic`.  The three such
+sites the model used to have — `opcode_pos + 1 + 2` in `if_helper`, `high - low + 1` in the `tableswitch` arm,
+`end - start` in `Labels::try_get_range` — are checked operations returning an error since the `fix:` commits 136eeb3,
+dc41ad9, f538c01; no function below produces `Fail.panic` any more (`Thm.C02.write_fails_cleanly`).
 -/
 
 namespace CodeWrite
@@ -168,11 +169,11 @@ def encIf (c : Cond) (isWide : Bool) (lbl : Nat → Option Nat) (p k t : Nat) : 
   match lbl t with
   | some tp =>
     if fitsI16 (offs p tp) then .ok (c.opcode :: i16b (offs p tp), [])
-    else if p + 3 > 65535 then .error .panic
+    else if p + 3 > 65535 then .error .err
     else .ok (c.opposite.opcode :: (i16b 8 ++ GOTO_W :: i32b (offs (p + 3) tp)), [])
   | none =>
     if isWide then
-      if p + 3 > 65535 then .error .panic
+      if p + 3 > 65535 then .error .err
       else .ok (c.opposite.opcode :: (i16b 8 ++ GOTO_W :: i32b I32MAX), [⟨p + 3, k, t, p + 4, true⟩])
     else .ok (c.opcode :: i16b I16MAX, [⟨p, k, t, p + 1, false⟩])
 
@@ -215,7 +216,7 @@ def encTableSwitch (lbl : Nat → Option Nat) (p k dflt : Nat) (low high : Int) 
   let hd := 0xaa :: List.replicate (padLen p) 0
   let d := swLabel lbl p k (p + 1 + padLen p) dflt
   if low > high then .error .err
-  else if high - low ≥ 2147483647 then .error .panic
+  else if high - low ≥ 2147483647 then .error .err
   else if (table.length : Int) ≠ high - low + 1 then .error .err
   else
     let t := swTable lbl p k (p + 1 + padLen p + 12) table
@@ -386,14 +387,14 @@ structure Lv where
   index : Nat
   deriving Repr
 
-/-- `Labels::try_get_range`: `(start, end - start)` with the unchecked `u16` subtraction -/
+/-- `Labels::try_get_range`: `(start, end - start)`, an error when the range ends before it starts (f538c01) -/
 def range (lp : Nat → Option Nat) (a b : Nat) : Except Fail (Nat × Nat) :=
   match lp a with
   | none => .error .err
   | some s =>
     match lp b with
     | none => .error .err
-    | some e => if e < s then .error .panic else .ok (s, e - s)
+    | some e => if e < s then .error .err else .ok (s, e - s)
 
 /-- `LocalVariable(Type)Table` rows `(start_pc, length, name_index, descriptor_index, index)` -/
 def lvRows (lp : Nat → Option Nat) : List Lv → Except Fail (List (List Nat))
